@@ -1,11 +1,104 @@
-(* Property C17: OTLP metrics survive conversion to STEF and back. *)
-From Coq Require Import List NArith ZArith Bool.
-From Stef Require Import OtlpBase PData Record Image ToStef FromStef RefutedFacts.
+(* Property C17: OTLP metrics survive conversion to STEF and back (both converters).
+   Model: Otlp/{PData,Record,Image,ToStef,FromStef}.v; variants of the code are selected by cfg
+   (cfg_pinned = the pinned commit; the flags named in the hypotheses are the repaired defects
+   D11, D12, D17, see DESIGN 8).  flatten = list of fully qualified data points, attribute
+   collections in canonical (key-sorted) order.  mbatch_wf = ranges of the Go types, unique map
+   keys.  A batch the converter refuses (result Err) is outside the statement. *)
+From Coq Require Import List NArith ZArith Bool Permutation.
+From Stef Require Import OtlpBase PData Record Image ToStef ToStefFacts FromStef FromStefFacts
+  RoundTripFacts SortedFacts SortedRoundTripFacts RefutedFacts.
 Import ListNotations.
 Open Scope N_scope.
 
+(* records written = number of data points: order-preserving converter, every variant of the
+   code, every content of the carried-over writer record *)
+Theorem C17_count_unsorted : forall c w b recs,
+  to_stef_unsorted_from c w b = Ok recs -> length recs = datapoint_count b.
+Proof. exact unsorted_count. Qed.
+Print Assumptions C17_count_unsorted.
+
+(* sorting converter, for any key comparisons whose Eq means equality, once number points
+   without a value are no longer skipped *)
+Theorem C17_count_sorted : forall cmpM cmpR cmpS cmpA,
+  (forall a b, cmpM a b = Eq -> a = b) -> (forall a b, cmpR a b = Eq -> a = b) ->
+  (forall a b, cmpS a b = Eq -> a = b) -> (forall a b, cmpA a b = Eq -> a = b) ->
+  forall c b recs, c_keep_empty c = true ->
+  to_stef_sorted_gen cmpM cmpR cmpS cmpA c b = Ok recs -> length recs = datapoint_count b.
+Proof. exact sorted_count. Qed.
+Print Assumptions C17_count_sorted.
+
+(* the pinned code (generated Cmp functions) writes fewer records: D17 *)
+Theorem C17_count_sorted_refuted :
+  exists b recs, mbatch_wf b = true /\ to_stef_sorted cfg_pinned b = Ok recs /\
+                 length recs <> datapoint_count b.
+Proof. exact sorted_count_refuted. Qed.
+Print Assumptions C17_count_sorted_refuted.
+
+(* the attribute conversion with the index advancing is the structural image, whatever the
+   destination slot held before (nothing of the previous record leaks) *)
+Theorem C17_attr_conversion : forall v prev, conv_val true prev v = img_val v.
+Proof. exact conv_val_img. Qed.
+Print Assumptions C17_attr_conversion.
+
+(* ... and the way back inverts the image on values with unique map keys *)
+Theorem C17_attr_way_back : forall v, oval_wf v = true -> back_val (img_val v) = v.
+Proof. exact back_img_val. Qed.
+Print Assumptions C17_attr_way_back.
+
+(* StefToOtlpUnsorted on ANY record stream whose modified flags announce every change of
+   metric, resource and scope: the flattened result is what each record stands for, in order *)
+Theorem C17_way_back_by_flags : forall c l pvs,
+  flags_ok l -> views c l pvs ->
+  exists b', from_stef_flags c l = Ok b' /\ flatten b' = concat pvs.
+Proof. exact from_stef_views. Qed.
+Print Assumptions C17_way_back_by_flags.
+
+(* order-preserving converter and back: the same list of fully qualified data points, for
+   every initial writer record and every sound flag assignment *)
+Theorem C17_roundtrip_unsorted : forall c w b recs l,
+  c_map_inc c = true -> c_back_ex c = true -> c_summary_flag c = true ->
+  mbatch_wf b = true ->
+  to_stef_unsorted_from c w b = Ok recs ->
+  map snd l = recs -> flags_ok l ->
+  exists b', from_stef_flags c l = Ok b' /\ flatten b' = flatten b.
+Proof. exact unsorted_roundtrip. Qed.
+Print Assumptions C17_roundtrip_unsorted.
+
+(* sorting converter and back: a permutation of the fully qualified data points *)
+Theorem C17_roundtrip_sorted : forall cmpM cmpR cmpS cmpA,
+  (forall a b, cmpM a b = Eq -> a = b) -> (forall a b, cmpR a b = Eq -> a = b) ->
+  (forall a b, cmpS a b = Eq -> a = b) -> (forall a b, cmpA a b = Eq -> a = b) ->
+  forall c b recs l,
+  c_map_inc c = true -> c_back_ex c = true -> c_summary_flag c = true -> c_keep_empty c = true ->
+  mbatch_wf b = true ->
+  to_stef_sorted_gen cmpM cmpR cmpS cmpA c b = Ok recs ->
+  map snd l = recs -> flags_ok l ->
+  exists b', from_stef_flags c l = Ok b' /\ Permutation (flatten b') (flatten b).
+Proof. exact sorted_roundtrip. Qed.
+Print Assumptions C17_roundtrip_sorted.
+
+(* what the pinned code does instead (witnesses evaluated by vm_compute, replayed on the Go
+   code from corpus/C17/witnesses.txt) *)
 Theorem C17_map_index_refuted :
   exists b b', mbatch_wf b = true /\
     rbind (to_stef_unsorted cfg_pinned b) (from_stef cfg_pinned) = Ok b' /\ flatten b' <> flatten b.
 Proof. exact map_index_refuted. Qed.
 Print Assumptions C17_map_index_refuted.
+
+Theorem C17_flagged_exemplars_refuted :
+  exists b b', mbatch_wf b = true /\
+    rbind (to_stef_unsorted cfg_pinned b) (from_stef cfg_pinned) = Ok b' /\ flatten b' <> flatten b.
+Proof. exact flagged_exemplars_refuted. Qed.
+Print Assumptions C17_flagged_exemplars_refuted.
+
+Theorem C17_summary_flag_refuted :
+  exists b b', mbatch_wf b = true /\
+    rbind (to_stef_unsorted cfg_pinned b) (from_stef cfg_pinned) = Ok b' /\ flatten b' <> flatten b.
+Proof. exact summary_flag_refuted. Qed.
+Print Assumptions C17_summary_flag_refuted.
+
+(* Not proved (observed by the correspondence only): the grouping way back
+   (stefToOtlpSorted, model from_stef_sorted); that the generated Cmp* functions and the
+   reader's modified flags satisfy the hypotheses above (the check compares the model using
+   transcriptions of Cmp* with the Go order of records, and tests flag soundness on every
+   observed stream); float setters with != (known finding C17-setter-negzero). *)
